@@ -16,6 +16,16 @@ the base input (the text is walked generically; the value type is looked up
 in dassh/input_template.txt), every fault of the menu of its type.  The
 user-power CSV gets its own menu.  Nothing is sampled.
 
+Keys of the template that are ABSENT from a section of the base text (and from
+its absent fixed-name optional sub-sections: Setup/Dump, Setup/Units,
+Assembly/*/SpacerGrid, FuelModel, PinModel) are inserted there: `ins:<name>` =
+every value of a valid menu derived from the template spec (option -> every
+option, boolean -> both, number -> typical / small value and the template
+bounds, list -> one valid list, string -> known material / correlation / unit
+names) and `ins!:<name>` = the invalid menu.  Sections that start another run
+mode ([Power][[ARC]], [Orificing], [Plot]) are skipped.  An inserted valid
+value carries no invalid class: accepted or rejected, never unexpected.
+
 Outcome per case (real `DASSH_Input` -> `Reactor` -> sweep -> postprocess, as
 `dassh.__main__._run_dassh` does):
   rejected    SystemExit while `Assembly.calculate` /
@@ -820,6 +830,151 @@ def apply_pf(files, fault):
 
 
 # ----------------------------------------------------------------------
+# inserted keys -------------------------------------------------------------
+# Template keys that do NOT occur in the base text are inserted in every section
+# of the text where the template allows them (and in the fixed-name optional
+# sub-sections that are absent, e.g. Setup/Dump, Assembly/*/SpacerGrid), with
+# `ins:<name>` = a value that is valid by the template, or `ins!:<name>` = a
+# value of the invalid menu.  Sections that start another run mode are skipped.
+INS_SKIP_SECTIONS = (('Power', 'ARC'), ('Orificing',), ('Plot',), ('Assignment',))
+INS_INVALID_NUM = ['zero', 'neg', 'tiny', 'huge', 'nan', 'inf', 'text', 'lt-min',
+                   'gt-max']
+INS_INVALID_NUM_QUICK = ['nan', 'lt-min', 'gt-max']
+INS_LISTS = {'htc_params_duct': '0.023, 0.8, 0.4, 7.0',
+             'htc_params': '0.023, 0.8, 0.4, 7.0',
+             'htc_params_clad': '0.023, 0.8, 0.4, 7.0',
+             'corr_coeff': '1.0, 0.0, 0.0, 1.0, 0.0, 0.0, 1.0',
+             'dummy_pin': '1,', 'assemblies': '1,', 'beta': '0.0,'}
+INS_STRINGS = {'corr_nusselt': ['DB', 'dittus-boelter'],
+               'convection_factor': ['calculate', '0.5'],
+               'model': ['simple', '6node'],
+               'subfactors': ['fftf_clad_mw'],
+               'temperature': ['kelvin', 'celsius', 'fahrenheit'],
+               'length': ['m', 'cm', 'in'],
+               'mass_flow_rate': ['kg/s', 'lb/hr']}
+
+
+def _bound(spec, which):
+    m = re.search(r'\b%s\s*=\s*([-+0-9.eE]+)' % which, spec or '')
+    return float(m.group(1)) if m else None
+
+
+def ins_values(path, key, ents, tier):
+    """[(fault name, value text)] for a template key that is absent at `path`"""
+    kind, spec, tkey = spec_of(path, key)
+    out = []
+    if kind is None:
+        return out
+    if kind == 'option':
+        out += [('ins:opt=' + a, a) for a in option_values(spec)]
+        out += [('ins!:bogus', 'bogus_name')]
+    elif kind == 'boolean':
+        out += [('ins:True', 'True'), ('ins:False', 'False'), ('ins!:maybe', 'maybe')]
+    elif kind in ('float', 'integer'):
+        lo, hi = _bound(spec, 'min'), _bound(spec, 'max')
+        integer = kind == 'integer'
+        if lo is not None and hi is not None:
+            typ = [('typ', 0.5 * (lo + hi))]
+        elif integer:
+            typ = [('typ', (lo if lo is not None else 0) + 1)]
+        else:
+            b = lo if lo is not None else 0.0
+            typ = [('typ', b + 0.5), ('small', b + 1e-3)]
+        like = '1' if integer else '1.0'
+        for n, x in typ:
+            out.append(('ins:' + n, fmt_like(x, like)))
+        if lo is not None:
+            out.append(('ins:at-min', fmt_like(lo, like)))
+        if hi is not None:
+            out.append(('ins:at-max', fmt_like(hi, like)))
+        ref = fmt_like(typ[0][1], like)
+        for n in (INS_INVALID_NUM if tier == 'thorough' else INS_INVALID_NUM_QUICK):
+            val = num_value(ref, n, spec)
+            if val is not None:
+                out.append(('ins!:' + n, val))
+    elif kind in ('float_list', 'int_list', 'force_list'):
+        if key in MATERIAL_LEAVES:
+            return out
+        val = INS_LISTS.get(key, '1,' if kind == 'int_list' else '0.1,')
+        out.append(('ins:list', val))
+        out += [('ins!:el-nan', 'nan,')]
+        if tier == 'thorough':
+            out += [('ins!:el-text', 'abc,'), ('ins!:el-neg', '-1,')]
+        if key in INS_LISTS and ',' in INS_LISTS[key].rstrip(','):
+            out.append(('ins!:l-drop', join_list(split_list(val)[:-1])))
+    elif kind == 'string':
+        if key in MATERIAL_LEAVES:
+            pool = []
+            for x in ents:
+                if x['t'] == 'kv' and x['k'] in MATERIAL_LEAVES:
+                    for a in split_list(x['v']):
+                        if a not in pool:
+                            pool.append(a)
+            out += [('ins:mat=' + a, a) for a in pool[:3]]
+            out.append(('ins!:bogus', 'bogus_name'))
+        elif key in INS_STRINGS:
+            out += [('ins:str=' + a, a) for a in INS_STRINGS[key]]
+            out.append(('ins!:bogus', 'bogus_name'))
+    return out
+
+
+def ins_sections(ents):
+    """[(path, exists)] of the sections of the text that can take inserted keys:
+    the sections present, and their absent fixed-name template sub-sections"""
+    present = [e['path'] for e in ents if e['t'] == 'sec']
+    out = []
+    for p in present:
+        if any(p[:len(sk)] == sk for sk in INS_SKIP_SECTIONS):
+            continue
+        out.append((p, True))
+        tp = tpath_of(p)
+        for te in template()['sec']:
+            q = te['path']
+            if (len(q) == len(tp) + 1 and q[:-1] == tuple(tp) and q[-1] != '__many__'
+                    and p + (q[-1],) not in present
+                    and not any((p + (q[-1],))[:len(sk)] == sk
+                                for sk in INS_SKIP_SECTIONS)):
+                out.append((p + (q[-1],), False))
+    return out
+
+
+def ins_faults(ents, tier):
+    out = []
+    for path, exists in ins_sections(ents):
+        tp = tuple(tpath_of(path))
+        have = {e['k'] for e in ents if e['t'] == 'kv' and e['path'] == path}
+        for te in template()['kv']:
+            if te['path'] != tp or te['k'] in have:
+                continue
+            for name, val in ins_values(path, te['k'], ents, tier):
+                out.append(('/'.join(path + (te['k'],)), tkey_of(tp, te['k']), name))
+    return out
+
+
+def apply_ins(lines, ents, key, fault, tier='thorough'):
+    parts = tuple(key.split('/'))
+    path, k = parts[:-1], parts[-1]
+    val = dict(ins_values(path, k, ents, tier)).get(fault)
+    if val is None:
+        return False
+    ind = '    ' * len(path)
+    line = '%s%s = %s' % (ind, k, val)
+    for e in ents:
+        if e['t'] == 'sec' and e['path'] == path:
+            lines.insert(e['i'] + 1, line)
+            return True
+    for e in ents:
+        if e['t'] == 'sec' and e['path'] == path[:-1]:
+            a, b = section_extent(lines, ents, e)
+            while b > a + 1 and lines[b - 1].strip() == '':
+                b -= 1
+            d = len(path)
+            lines[b:b] = ['%s%s%s%s' % ('    ' * (d - 1), '[' * d, path[-1], ']' * d),
+                          line]
+            return True
+    return False
+
+
 def key_of(e):
     if e['t'] == 'sec':
         return '/'.join(e['path'])
@@ -850,6 +1005,10 @@ def mutate(base, muts):
                 return None
             continue
         ents = parse(lines)
+        if fault.startswith('ins'):
+            if not apply_ins(lines, ents, key, fault):
+                return None
+            continue
         e = find_entry(ents, key)
         if e is None:
             return None
@@ -891,6 +1050,7 @@ def single_faults(base, tier):
             nasn += 1
     for f in sorted(PF_FAULTS):
         out.append(('Power/user_power@csv', 'Power/user_power@csv', f))
+    out += ins_faults(ents, tier)
     return out
 
 
@@ -967,6 +1127,13 @@ def double_cases(singles, results):
 def family(fault):
     """coarse family of a fault (flat scenario field `ffam`)"""
     f = fault
+    if f.startswith('ins:'):
+        return 'insert'
+    if f.startswith('ins!:'):
+        g = f[5:]
+        if g.startswith('el-'):
+            g = g[3:]
+        return 'insert-' + ('nonfinite' if g in ('nan', 'inf') else 'invalid')
     if f.startswith('asn:bc-'):
         f = f[7:]
     elif f.startswith('el') and ':' in f:
@@ -1466,7 +1633,14 @@ def main(run):
                 'their text x every fault of the menu of its template type, plus the '
                 'user-power CSV menu (thorough: plus all pairs of geometry faults on two '
                 'different geometry keys); mutants whose text equals the base or an '
-                'earlier mutant are dropped at enumeration; a case is non-trivial when '
+                'earlier mutant are dropped at enumeration; every template key that is '
+                'ABSENT from a section of the base text (or from an absent fixed-name '
+                'optional sub-section such as Setup/Dump, Assembly/*/SpacerGrid) is '
+                'inserted there with every value of a valid menu derived from its '
+                'template spec (`ins:`: options, booleans, typical / bound values, one '
+                'valid list, known material / correlation / unit names) and with an '
+                'invalid menu (`ins!:`); a case is non-trivial when '
+
                 'the real DASSH_Input was called on a text that differs from the base; '
                 'part `valid`: every tuple of the stated design grid (rings, ducts, wire, '
                 'gap model, P/D, low-fidelity model) as a single-assembly input')
@@ -1474,8 +1648,10 @@ def main(run):
         'membership of a named invalid class is decided by the harness from the mutated '
         'text with the plain definitions of the statement (bundle flat-to-flat '
         'sqrt3 (n-1) P + D + 2 Dw) and only when all operands are finite numbers',
-        'keys of the template that need binary ARC files, [Orificing] and [Plot] do not '
-        'appear in the base inputs and are not covered',
+        'keys of the template that need binary ARC files ([Power][[ARC]]), [Orificing] '
+        'and [Plot] start another run mode and are not covered; absent user-named '
+        'sections (AxialRegion, Hotspot, AssemblyTables, Materials entries) are not created; '
+        'Materials/*/from_file is not inserted (needs a property file)',
         'sweeps of meshes longer than %d steps are cut after %d steps (no postprocess); '
         'a mesh of more than %g steps or a mesh loop that does not advance is a HANG'
         % (CAP_STEPS, CAP_SWEEP, MAX_MESH)]
